@@ -15,7 +15,7 @@ CHECKS = {
     "C02": ("metamorphic monitor: snapshots of every public query before/after gap-level semantics-preserving rewrites (R1..R12) and repackaging (string, file, BOM, multi-file)",
             "Exploration: random compositions of 12 rewrites at random subsets of all gaps of generated files, all tests/data files and the master files (sliced in quick, whole in thorough); "
             "each rewrite also applied in isolation; the relation itself is the oracle.",
-            "Held on the variants generated; parameter wrapping only on non-empty lists, splits only between top-level statements.", "3/C02"),
+            "Held on the variants generated; parameter wrapping only on non-empty lists, file splits at line ends between statements or between two lines of a Decay block.", "3/C02"),
     "C03": ("reference-model monitor: generated Decay/Alias/ChargeConj/CopyDecay/CDecay files parsed with both switch values against the reference conjugation semantics; corpus CDecay statements",
             "Exploration: statement-order shuffled files with both ChargeConj orientations, aliases, unknown and self-conjugate daughters, precedence and missing-source cases, both values of the switch; "
             "177 CDecay statements of the master files against the table oracle.",
@@ -80,7 +80,8 @@ NOT_BUILT = {
 }
 
 ENGINE = {"name": "vmon", "path": "vmon/", "kind_free_text": "runtime monitoring: reference-model monitors, icontract contracts on the real callables, "
-          "history checkers, metamorphic pairs, sys.monitoring anchor coverage and step budgets; workers are subprocesses of ./check"}
+          "history checkers, metamorphic pairs, sys.monitoring anchor coverage, step budgets and failpoints (a library call abandoned at a random line of the library's own code); "
+          "workers are subprocesses of ./check, each run under one of four environment profiles (default, C locale, python -O, other cwd / pre-imports / time zone / COLUMNS)"}
 
 
 def main():
